@@ -351,3 +351,47 @@ def run_purge_crash(args):
                 'after_rerun': o2, 'rerun_exit': r2['exit'], 'rerun_err': r2['stderr'][-300:].decode('utf-8', 'replace')}
     finally:
         box.destroy()
+
+
+def purge_state_trace(args):
+    """run a purge scenario in lock-step with every operation a step; -> the sequence of projected states"""
+    scen, permute_seed = args
+    runner.prepare()
+    cmd, argv, sel = PURGE_SCENARIOS[scen]
+    box = PurgeBox()
+    try:
+        import select as _select
+        from harness import oplevel
+        a_r, a_w = os.pipe()
+        t_r, t_w = os.pipe()
+        cfg = box.shim(pname='p1', lockstep={'ann': a_w, 'tok': t_r, 'shared': []}, permute=bool(permute_seed), seed=permute_seed)
+        if cmd == 'restore':
+            h = runner.spawn('trash-restore', ['/'], os.path.join(box.root, 'cwd'), box.env(), stdin=argv[0].encode() + b'\n', shim_cfg=cfg)
+        else:
+            h = runner.spawn('trash-' + cmd, list(argv), os.path.join(box.root, 'cwd'), box.env(), shim_cfg=cfg)
+        os.close(a_w)
+        os.close(t_r)
+        pr = oplevel.Proc()
+        pr.ann_r, pr.tok_w, pr.buf, pr.want, pr.alive, pr.events, pr.h = a_r, t_w, b'', None, True, [], h
+        states = []
+        ops = []
+        oplevel.advance_to_want(pr)
+        while pr.alive and pr.want is not None and len(states) < 2000:
+            w = pr.want
+            os.write(pr.tok_w, b'g')
+            pr.want = None
+            oplevel.advance_to_want(pr)
+            info, pay, dest = box.project()
+            st = {'info': info, 'pay': pay, 'dest': dest}
+            ops.append([w['op'], w['raw']])
+            if not states or states[-1] != st:
+                states.append(st)
+        res = runner.finish(h, timeout=10)
+        for fd in (a_r, t_w):
+            try:
+                os.close(fd)
+            except OSError:
+                pass
+        return {'scen': scen, 'states': states, 'nops': len(ops), 'exit': res['exit']}
+    finally:
+        box.destroy()
